@@ -28,13 +28,13 @@ Definition cmp_ok (d : definition) (my : N) (rtl : bool) (d' : definition) : boo
   end.
 
 Definition binary_tok_ok (t : token_type) : bool :=
-  negb (is_binary_tok t) ||
+  negb (is_binary_tok t) || sep_tok t ||
   (let '(d, sec) := get_definition t in
    definition_eqb d (ref_def t) && is_bin_sec sec &&
    negb (definition_eqb d D_SideEffect) && negb (definition_eqb d D_Drop) && negb (definition_eqb d D_Identifier) &&
    match priority d, ref_rank d with
    | Some my, Some p =>
-     negb (walk_stop my 10 (rtl_of sec)) && negb (walk_stop my 20 (rtl_of sec)) && N.ltb p INF && N.ltb 10 my && frameable d &&
+     negb (walk_stop my 10 (rtl_of sec)) && negb (walk_stop my 20 (rtl_of sec)) && N.ltb p ROUND_LIMIT && N.ltb 10 my && frameable d &&
      forallb (fun d' => implb (frameable d') (cmp_ok d my (rtl_of sec) d')) all_definition
    | _, _ => false
    end).
@@ -59,16 +59,17 @@ Record binary_facts (t : token_type) (sec : secondary) (my p : N) : Prop := mkBF
   bf_atom : walk_stop my 10 (rtl_of sec) = false;
   bf_group : walk_stop my 20 (rtl_of sec) = false;
   bf_inf : (p < INF)%N;
+  bf_rl : (p < ROUND_LIMIT)%N;
   bf_gt : (10 < my)%N;
   bf_cmp : forall d', frameable d' = true -> cmp_ok (ref_def t) my (rtl_of sec) d' = true;
   bf_frame : frameable (ref_def t) = true
 }.
 
-Lemma binary_tok_facts t : is_binary_tok t = true -> exists sec my p, binary_facts t sec my p.
+Lemma binary_tok_facts t : is_binary_tok t = true -> sep_tok t = false -> exists sec my p, binary_facts t sec my p.
 Proof.
-  intros Hb. pose proof binary_toks_ok as F. rewrite forallb_forall in F.
-  specialize (F t (all_tokens_in t)). unfold binary_tok_ok in F. rewrite Hb in F.
-  change (negb true || ?x) with x in F.
+  intros Hb Hns. pose proof binary_toks_ok as F. rewrite forallb_forall in F.
+  specialize (F t (all_tokens_in t)). unfold binary_tok_ok in F. rewrite Hb, Hns in F.
+  change (negb true || false || ?x) with x in F.
   destruct (get_definition t) as [d sec] eqn:Eg.
   apply andb_true_iff in F. destruct F as [F G].
   apply andb_true_iff in F. destruct F as [F F5].
@@ -93,6 +94,7 @@ Proof.
   - exact Er.
   - apply negb_true_iff. exact G1.
   - apply negb_true_iff. exact G1'.
+  - apply N.ltb_lt in G2. eapply N.lt_trans; [exact G2|reflexivity].
   - apply N.ltb_lt. exact G2.
   - apply N.ltb_lt. exact G3.
   - rewrite forallb_forall in G5. intros d' Hd'. specialize (G5 d' (all_definitions_in d')).
@@ -270,7 +272,7 @@ Proof.
 Qed.
 
 Definition pending_prev (s : secondary) : Prop :=
-  s = S_None \/ is_bin_sec s = true \/ s = S_UnaryPrefix \/ s = S_StartGrouping.
+  s = S_None \/ is_bin_sec s = true \/ s = S_UnaryPrefix \/ s = S_StartGrouping \/ s = S_Subexpression.
 
 (* value tokens *)
 Definition value_tok_ok (t : token_type) : bool :=
